@@ -321,6 +321,7 @@ func init() {
 		},
 		"vxStop": func(fr *frame, a []value) (value, bool) { panic(pathEnd{}) },
 		"vxTier": func(fr *frame, a []value) (value, bool) { return os.Getenv("VX_TIER"), true },
+		"vxProp": func(fr *frame, a []value) (value, bool) { return os.Getenv("VX_PROP"), true },
 		"vxLabelOn": func(fr *frame, a []value) (value, bool) {
 			// whether assertions with this label prefix are checked in this run
 			pre := argStr(a[0])
